@@ -262,21 +262,27 @@ def _analyze_command(
                 inner_decision = _analyze_node(part.command, config, cwd, remote=remote)
                 if inner_decision.action != "allow":
                     direction = getattr(part, "direction", "?")
-                    return Decision(
-                        inner_decision.action,
-                        f"process substitution {direction}(...): {inner_decision.reason}",
-                        children=[inner_decision],
+                    decisions.append(
+                        Decision(
+                            inner_decision.action,
+                            f"process substitution {direction}(...): {inner_decision.reason}",
+                            children=[inner_decision],
+                        )
                     )
+                    continue
                 decisions.append(inner_decision)
             elif part_kind == "cmdsub":
                 # Command substitution: $(...)
                 inner_decision = _analyze_node(part.command, config, cwd, remote=remote)
                 if inner_decision.action != "allow":
-                    return Decision(
-                        inner_decision.action,
-                        f"command substitution: {inner_decision.reason}",
-                        children=[inner_decision],
+                    decisions.append(
+                        Decision(
+                            inner_decision.action,
+                            f"command substitution: {inner_decision.reason}",
+                            children=[inner_decision],
+                        )
                     )
+                    continue
                 decisions.append(inner_decision)
                 # Check for injection risk: pure cmdsub in arg position of handler CLI
                 # But allow if outer command is read-only (handler approves it)
@@ -290,7 +296,9 @@ def _analyze_command(
                     outer_result = handler.classify(HandlerContext(words[base_idx:]))
                     if outer_result.action != "allow":
                         inner_cmd = _get_word_value(word).strip("$()")
-                        return Decision("ask", f"cmdsub injection risk: {inner_cmd}")
+                        decisions.append(
+                            Decision("ask", f"cmdsub injection risk: {inner_cmd}")
+                        )
             elif part_kind == "param":
                 # Parameter expansion - check for cmdsubs in arg (raw string)
                 arg = getattr(part, "arg", None)
@@ -298,21 +306,15 @@ def _analyze_command(
                     param_decisions = _analyze_string_cmdsubs(
                         arg, config, cwd, remote=remote
                     )
-                    for pd in param_decisions:
-                        if pd.action != "allow":
-                            return pd
                     decisions.extend(param_decisions)
 
     # 2. Check redirects
     redirect_decisions = _analyze_redirects(node, config, cwd, remote=remote)
-    for rd in redirect_decisions:
-        if rd.action != "allow":
-            return rd
     decisions.extend(redirect_decisions)
 
     # 3. Check the command itself
     if not words:
-        return Decision("allow", "empty command")
+        return _combine(decisions) if decisions else Decision("allow", "empty command")
 
     # Conditional test commands ([ and test) - read-only, safe after cmdsub check
     if base in ("[", "test"):
